@@ -223,6 +223,10 @@ void bn_rand_mod(bn_t a, const bn_t b) {
 		bn_new(t);
 
 		bn_copy(t, b);
+		if (bn_bits(t) <= 1) {
+			/* There is no non-zero value with absolute value below 1. */
+			RLC_THROW(ERR_NO_VALID);
+		}
 		do {
 			bn_rand(a, bn_sign(t), bn_bits(t) + RAND_DIST);
 			bn_mod(a, a, t);
